@@ -41,7 +41,10 @@ def shapes():
 
 
 SECOND = P.F((P.S(("pass",)),))
-VARIATIONS = {"default": {}, "stop": {"stop": True}, "tags": {"tags": "not u"}}
+VARIATIONS = {"default": {}, "stop": {"stop": True}, "tags": {"tags": "not u"},
+              # user code sets the documented switch Scenario.continue_after_failed_step = True: after a step whose
+              # before_step / after_step hook raised, the following steps still run (as after any failed step)
+              "cafs": {"cafs": True}}
 
 _FAULTFREE = {}
 
@@ -147,6 +150,7 @@ def cases(tier):
                 for kind in ("exc", "assert"):
                     yield (prog, cfgname, {k: kind})
                 if cfgname == "default":
+                    yield (prog, "cafs", {k: "assert" if k % 2 else "exc"})
                     yield (prog, cfgname, {k: "exc"}, True)
                     # the raised exception cannot be described (its __str__ raises): behave formats the exception
                     # inside run_hook's except clause
@@ -398,6 +402,81 @@ def absorb_cases(tier):
 
 
 
+# ---- hooks wrapped with the documented @capture decorator --------------------------------------------------------
+def decorated_case(case):
+    """case = (k, deco, logs): every hook of the environment is wrapped with behave.log_capture.capture
+    (deco "plain" = @capture, "error" = @capture(level=ERROR), "none" = undecorated control); the k-th hook invocation
+    raises, after logging a record at INFO level (logs=1) or without logging anything (logs=0). The decorator must not
+    change what a raising hook means: the run fails, nothing escapes, after_all is called."""
+    k, deco, logs = case
+    import logging
+    from behave.parser import parse_feature
+    from behave.step_registry import StepRegistry
+    from behave.runner import ModelRunner
+    from behave.configuration import Configuration
+    from behave.log_capture import capture
+    harness.reset_globals()
+    feature = parse_feature(ABSORB_TEXT, filename="decorated.feature")
+    reg = StepRegistry()
+    reg.add_step_definition("step", u"a step", lambda ctx: None)
+    reg.add_step_definition("step", u"the outer step swallows the failure of its sub-step", lambda ctx: None)
+    trace, raised = [], []
+
+    def make_hook(name):
+        def hook(ctx, *args):
+            i = len(trace)
+            trace.append(name)
+            if i == k:
+                raised.append(name)
+                if logs:
+                    logging.getLogger("c12").info("about to fail in %s", name)
+                raise RuntimeError("fault in %s #%d" % (name, i))
+        if deco == "plain":
+            return capture(hook)
+        if deco == "error":
+            return capture(level=logging.ERROR)(hook)
+        return hook
+    old = sys.stdout, sys.stderr
+    import io as _io
+    root = logging.getLogger()
+    saved_handlers, saved_level = root.handlers[:], root.level
+    sys.stdout, sys.stderr = _io.StringIO(), _io.StringIO()
+    escaped, verdict = None, None
+    try:
+        config = Configuration(["-f", "null"], load_config=False)
+        runner = ModelRunner(config, [feature], step_registry=reg)
+        runner.hooks = {n: make_hook(n) for n in ABSORB_HOOKS}
+        verdict = bool(runner.run())
+    except BaseException as e:      # noqa
+        escaped = type(e).__name__
+    finally:
+        sys.stdout, sys.stderr = old
+        root.handlers[:] = saved_handlers
+        root.setLevel(saved_level)
+    v = []
+    site = raised[0] if raised else "-"
+    d = {"subcheck": "decorated-hooks", "decorator": deco, "logged-before-raising": str(bool(logs)), "fault": site}
+    if escaped:
+        v.append((dict(d, clause="exception-escapes-run", exc=escaped), "fault in %s (#%d): run() raised %s" % (site, k, escaped)))
+    else:
+        if raised and not verdict:
+            v.append((dict(d, clause="hook-fault-not-failing"),
+                      "the %s-decorated hook %s (#%d) raised, but run() reports success" % (deco, site, k)))
+        if trace[-1:] != ["after_all"] and site != "before_all":
+            v.append((dict(d, clause="after-all-not-called"), "fault in %s (#%d): last hook is %r" % (site, k, trace[-1:])))
+    return {"v": v, "nt": digest(case) if raised else None, "out": ("decorated", deco, logs, site, verdict, escaped),
+            "dg": (verdict, escaped, tuple(trace))}
+
+
+def decorated_cases(tier):
+    n = len(decorated_case((-1, "none", 0))["dg"][2])
+    for deco in ("none", "plain", "error"):
+        for logs in (0, 1):
+            for k in range(n):
+                yield (k, deco, logs)
+
+
+
 def pair_cases(tier):
     for si, shp in enumerate(shapes()):
         prog = (shp, SECOND)
@@ -425,6 +504,8 @@ def run(ctx):
               name="the environment provides only a subset of the hooks (single hooks, all but one, halves, pairs)")
     ctx.sweep(absorb_case, absorb_cases(ctx.tier), chunk=8,
               name="a hook fault whose element failure is absorbed (auto-retry succeeds / the caller of execute_steps catches it)")
+    ctx.sweep(decorated_case, decorated_cases(ctx.tier), chunk=16,
+              name="hooks wrapped with the documented @capture decorator raise (with / without a record logged before)")
     if not ctx.quick:
         ctx.sweep(run_case, pair_cases(ctx.tier), chunk=64, name="pairs of hook faults")
     sites = set()
